@@ -175,7 +175,7 @@ def tlc(module, cfg, *, workers=4, timeout=600, env=None, simulate=None,
     t0 = time.time()
     try:
         r = subprocess.run(["timeout", str(timeout)] + cmd, cwd=SPEC, env=e,
-                           capture_output=True, text=True)
+                           capture_output=True, text=True, stdin=subprocess.DEVNULL)
     finally:
         shutil.rmtree(meta, ignore_errors=True)
     res = TlcResult()
@@ -269,7 +269,8 @@ class Verdict:
         known-findings `match` values)."""
         for k in self.known:
             if k.get("match") == key or (k.get("match_prefix") and
-                                         key.startswith(k["match_prefix"])):
+                                         key.startswith(k["match_prefix"])) or \
+                    (k.get("match_re") and re.search(k["match_re"], key)):
                 self.known_hit.setdefault(k["id"], k)
                 return False
         REPLAYS.mkdir(exist_ok=True)
@@ -424,3 +425,24 @@ def eval_obs(module, cfg, records, *, scratch, max_fail=25, timeout=900, chunk=4
             if len(failures) >= max_fail:
                 return n_ok, failures, states
     return n_ok, failures, states
+
+
+def eval_report(module, cfg, records, *, scratch, timeout=1200, chunk=20000, depth_first=False):
+    """Single-pass evaluation of a trace/observation spec whose ReportInv prints
+    {"tag":"FAIL","l":<record index>, ...} for every failing record and never
+    stops.  Returns (list of (index0, fail-object), states).  Rejection of the
+    trace itself (Accepted false / evaluation error) is a ToolError."""
+    out = []
+    states = 0
+    for base in range(0, len(records), chunk):
+        part = records[base:base + chunk]
+        path = Path(scratch) / f"rep-{module}-{base}.ndjson"
+        write_ndjson(path, part)
+        res = tlc(module, cfg, workers=1, timeout=timeout, env={"TRACE": str(path)},
+                  depth_first=depth_first)
+        states += res.distinct
+        if not res.ok:
+            raise ToolError(f"{module}: trace not consumed / evaluation error:\n{res.raw[-3000:]}")
+        for f in printed_json(res, "FAIL"):
+            out.append((base + int(f["l"]) - 1, f))
+    return out, states
